@@ -204,6 +204,9 @@ class Live(object):
     pass
 
 
+FIXED_KINDS = ("fixed", "fixedlearn")
+
+
 def build_model(torch, gpytorch, m, tree_name, lik_kind, seed):
     """a real exact GP of the abstract class m = (ad, kw, site) + everything the hand-written conditional needs"""
     D = torch.float64
@@ -258,16 +261,18 @@ def build_model(torch, gpytorch, m, tree_name, lik_kind, seed):
         nlik.eval()
         L.nm, L.nlik = nm, nlik
         lik = _GaussianLikelihoodBase(noise_covar=HeteroskedasticNoise(nm)).to(D)
-    elif lik_kind == "fixed":
+    elif lik_kind in FIXED_KINDS:
         L.noise_tr = 0.1 + 0.2 * torch.rand(n, generator=g, dtype=D)
-        lik = gpytorch.likelihoods.FixedNoiseGaussianLikelihood(noise=L.noise_tr).to(D)
+        lik = gpytorch.likelihoods.FixedNoiseGaussianLikelihood(noise=L.noise_tr, learn_additional_noise=(lik_kind == "fixedlearn")).to(D)
     else:
         lik = gpytorch.likelihoods.GaussianLikelihood().to(D)
     model = M(L.X, L.y, lik, L.ctree, kw_mode if site == "covar" else "none").to(D)
     perturb(torch, model.covar_module, g)
     perturb(torch, model.mean_module, g)
     with torch.no_grad():
-        if site == "covar" and lik_kind != "fixed":
+        if site == "covar" and lik_kind == "fixedlearn":
+            lik.second_noise = 0.65 + 0.1 * float(torch.rand(1, generator=g))       # (the noise setter of this likelihood sets the stored per-point noise)
+        elif site == "covar" and lik_kind != "fixed":
             lik.noise = 0.15 + 0.1 * float(torch.rand(1, generator=g))
     model.eval()
     lik.eval()
@@ -305,8 +310,12 @@ def hand_conditional(torch, L, Xs, noise_te):
             s_tr, c1 = hand_noise(torch, L, L.X)
             s_te, c2 = hand_noise(torch, L, Xs)
             Str, Ste, cond2 = torch.diag_embed(s_tr), torch.diag_embed(s_te), max(c1, c2)
-        elif L.lik_kind == "fixed":
+        elif L.lik_kind in FIXED_KINDS:
+            # ExactPosterior.tla DocNoise: S = diag(stored) [+ second I], S* = diag(t) [+ second I] (call-time noise, any size)
             Str, Ste = torch.diag_embed(L.noise_tr), torch.diag_embed(noise_te)
+            if L.lik_kind == "fixedlearn":
+                s2 = L.lik.second_noise.detach()
+                Str, Ste = Str + s2 * torch.eye(n, dtype=Z.dtype), Ste + s2 * torch.eye(Xs.shape[-2], dtype=Z.dtype)
         else:
             nz = L.lik.noise.detach()
             Str, Ste = nz * torch.eye(n, dtype=Z.dtype), nz * torch.eye(Xs.shape[-2], dtype=Z.dtype)
@@ -351,6 +360,18 @@ def run_l4(torch, gpytorch, settings, c):
             L.lik.eval()
             done.append(a)
             continue
+        if a == "load-state":
+            # other hyperparameter values for every parameter of the model (likelihood and noise model included), loaded while the model stays in
+            # eval mode: the next prediction is the conditional under the NEW K, m, S (the hand-written conditional reads the live values)
+            sd = {kk: v.clone() for kk, v in L.model.state_dict().items()}
+            for kk, _ in L.model.named_parameters():
+                sd[kk] = sd[kk] + 0.25 + 0.3 * torch.rand(sd[kk].shape, generator=L.g, dtype=sd[kk].dtype)
+            ok, got = core.guarded(lambda: L.model.load_state_dict(sd))
+            if not ok:
+                res.update(ok=False, sig="%s/after:%s/%s/raises" % (sigbase, "+".join(done) or "nothing", a), detail="%s: %s raises: %s" % (desc, a, got))
+                return res
+            done.append(a)
+            continue
         if a in ("set-targets", "set-data"):
             # new training data of the model (same size): the next prediction conditions on them
             y2 = torch.randn(L.n, generator=L.g, dtype=D)
@@ -370,7 +391,7 @@ def run_l4(torch, gpytorch, settings, c):
         Xs = torch.rand(ns, D_COLS, generator=L.g, dtype=D) * 2 - 1
         if k == len(steps) - 1 and c.get("close_at_train"):
             Xs, ns = L.X.clone(), L.n        # "at any test inputs": the training inputs themselves (ExactGP warns under debug; the answer is the same conditional)
-        noise_te = (0.1 + 0.2 * torch.rand(ns, generator=L.g, dtype=D)) if (lik_kind == "fixed" and m["site"] == "covar") else None
+        noise_te = (0.35 + 0.25 * torch.rand(ns, generator=L.g, dtype=D)) if (lik_kind in FIXED_KINDS and m["site"] == "covar") else None
         wm, wc, wmc, cond = hand_conditional(torch, L, Xs, noise_te)
         if cond > 1e4:
             res.update(nontrivial=npred >= 2, n=1 if npred else 0)
